@@ -51,6 +51,7 @@ def confirm(d):
                 placed.append(dst)
         run = demos[0]["run"]
         run = re.sub(r"^cd \S+ && ", "", run)
+        run = re.sub(r"\s+\((?![^']*'\s*(?:\.|\./\S*)?\s*$).*$", "", run).strip()   # authors append remarks in parentheses
         rc0, out0 = sh(run + " -count=1" if "go test" in run and "-count" not in run else run, wt)
         res["demo_without_patch"] = {"rc": rc0, "tail": out0[-600:]}
         rc, out = sh("git apply " + os.path.abspath(os.path.join(d, "patch.diff")), wt)
